@@ -528,6 +528,9 @@ class AbstractExcelInPython(ABC):
         return when_error() if callable(when_error) else when_error
 
     def _left(self, text, num_chars):
+        if isinstance(text, self.EmptyCell):
+            # a cell that holds nothing is the empty text
+            text = ''
         if num_chars is None:
             return text[0:1]
         if num_chars < 0:
@@ -540,6 +543,9 @@ class AbstractExcelInPython(ABC):
         return text[0:num_chars]
 
     def _mid(self, text, start_num, num_chars):
+        if isinstance(text, self.EmptyCell):
+            # a cell that holds nothing is the empty text
+            text = ''
         if start_num < 1:
             return '#NUM!'
         if num_chars < 0:
@@ -691,6 +697,9 @@ class AbstractExcelInPython(ABC):
         return self._sum(sum_range)
 
     def _right(self, text, num_chars):
+        if isinstance(text, self.EmptyCell):
+            # a cell that holds nothing is the empty text
+            text = ''
         if num_chars is None:
             return text[len(text) - 1:]
         if num_chars < 0:
